@@ -16,7 +16,10 @@ META = {
              "2^21 per axis; non-trivial = grid is not a cube of a power of "
              "two. routing: all bit triples in {0..8}^3 x boundary ids, "
              "Hypothesis triples up to 70 bits; non-trivial = shard and "
-             "minishard bits both > 0 or total > 64."),
+             "minishard bits both > 0 or total > 64."
+             ' Also: coordinates as NumPy scalars of every width, one coor'
+             'dinate list advanced in place, routing_on_disk: the shard fi'
+             'le a chunk stored through ShardedFileAccessor lands in.'),
     "exhaustive_parts": ["cmc_exhaustive: all grids up to 10^3 (quick) / "
                          "16^3 (thorough), all positions",
                          "routing_exhaustive: all (preshift, minishard, "
